@@ -158,6 +158,29 @@ def c02_all_nontemp_shapes(repo):
     return [s for s in c02_shapes(repo) if s["cls"] != "GeckoTempStructAccessor"]
 
 
+def c13_command_shapes(repo):
+    """shapes of the items facade commands write: user demands (Ud*), economy mode, temperature unit"""
+    shapes = {}
+    for m in all_modules(repo):
+        for it in m.get("items", []):
+            k = it["key"]
+            if not (k.startswith("Ud") or k in ("EconActive", "TempUnits")):
+                continue
+            if it["rw"] is None or it["cls"] not in ("GeckoBoolStructAccessor", "GeckoEnumStructAccessor"):
+                continue
+            s = shape_of(it)
+            e = shapes.setdefault(s, {"count": 0, "example": "%s:%s" % (m["module"], k), "raw": it})
+            e["count"] += 1
+    out = []
+    for s in sorted(shapes, key=lambda s: (s[0], str(s[1]), str(s[3]), str(s[4]), str(s[2]))):
+        e = shapes[s]
+        it = e["raw"]
+        out.append({"cls": s[0], "bitpos": s[1], "items": list(s[2]) if s[2] is not None else None, "items_raw": it.get("items"),
+                    "size": s[3], "maxitems": s[4], "readonly": False, "rw": it["rw"], "count": e["count"], "example": e["example"],
+                    "id": hashlib.sha1(repr(s).encode()).hexdigest()[:10]})
+    return out
+
+
 def c04_platforms(repo):
     mods = all_modules(repo)
     out = []
